@@ -33,6 +33,45 @@ namespace romea
 namespace core
 {
 
+#ifdef ROMEA_CORE_COMMON_VERIF
+namespace verif
+{
+std::vector<IcpTraceEntry> & icpTrace()
+{
+  thread_local std::vector<IcpTraceEntry> trace;
+  return trace;
+}
+bool & icpTraceDetail()
+{
+  thread_local bool detail = false;
+  return detail;
+}
+static IcpTraceEntry & pendingIcpEntry()
+{
+  thread_local IcpTraceEntry pending;
+  return pending;
+}
+template<class MatrixType>
+static void recordIcpIteration(
+  size_t iteration, bool success, double rmse, size_t matchedPairs, const MatrixType & m)
+{
+  IcpTraceEntry e = pendingIcpEntry();
+  pendingIcpEntry() = IcpTraceEntry();
+  e.iteration = iteration;
+  e.success = success;
+  e.rmse = rmse;
+  e.matchedPairs = matchedPairs;
+  e.transformation.clear();
+  for (int i = 0; i < m.rows(); ++i) {
+    for (int j = 0; j < m.cols(); ++j) {
+      e.transformation.push_back(static_cast<double>(m(i, j)));
+    }
+  }
+  icpTrace().push_back(e);
+}
+}  // namespace verif
+#endif
+
 //-----------------------------------------------------------------------------
 template<class PointType>
 FindRigidTransformationByICP<PointType>::FindRigidTransformationByICP(
@@ -157,6 +196,16 @@ bool FindRigidTransformationByICP<PointType>::find(
       correspondences_.emplace_back(sourceIndex, targetIndex, nearestNeighborSquareDistance);
     }
 
+#ifdef ROMEA_CORE_COMMON_VERIF
+    if (verif::icpTraceDetail()) {
+      for (const Correspondence & c : correspondences_) {
+        verif::pendingIcpEntry().candidateSources.push_back(c.sourcePointIndex);
+        verif::pendingIcpEntry().candidateTargets.push_back(c.targetPointIndex);
+        verif::pendingIcpEntry().candidateSquareDistances.push_back(c.squareDistanceBetweenPoints);
+      }
+    }
+#endif
+
     // Remove wrong correspondences
     std::vector<Correspondence>::iterator itEnd;
     std::sort(
@@ -192,6 +241,15 @@ bool FindRigidTransformationByICP<PointType>::find(
       matchedCorrespondences_[n].targetPointIndex = n;
     }
 
+#ifdef ROMEA_CORE_COMMON_VERIF
+    if (verif::icpTraceDetail()) {
+      for (size_t m = 0; m < numberOfMatchedPoints; ++m) {
+        verif::pendingIcpEntry().keptSources.push_back(correspondences_[m].sourcePointIndex);
+        verif::pendingIcpEntry().keptTargets.push_back(correspondences_[m].targetPointIndex);
+      }
+    }
+#endif
+
     // Load data in ransac consensus
     ransacModel_.loadPointSets(&matchedSourcePoints_, &matchedTargetPoints_);
     ransacModel_.loadCorrespondences(&matchedCorrespondences_, numberOfMatchedPoints);
@@ -207,6 +265,11 @@ bool FindRigidTransformationByICP<PointType>::find(
 
     // Estimate transformation
     if (ransac_.estimateModel()) {
+#ifdef ROMEA_CORE_COMMON_VERIF
+      verif::recordIcpIteration(
+        n, true, ransacModel_.getRootMeanSquareError(), numberOfMatchedPoints,
+        ransacModel_.getTransformation());
+#endif
       // Difference between consecutive estimated tranformations
       Scalar differenceBetweenTransformations =
         (ransacModel_.getTransformation() -
@@ -226,6 +289,13 @@ bool FindRigidTransformationByICP<PointType>::find(
       // Backup current estimation
       previousEstimatedTransformation = ransacModel_.getTransformation();
     }
+#ifdef ROMEA_CORE_COMMON_VERIF
+    else {  // NOLINT
+      verif::recordIcpIteration(
+        n, false, ransacModel_.getRootMeanSquareError(), numberOfMatchedPoints,
+        ransacModel_.getTransformation());
+    }
+#endif
   }
 
   return n != maximalNumberOfIterations_;
